@@ -8,6 +8,7 @@ CONSTANTS
   RepInner = {"new_account", "tld", "init", "open", "close", "set_active", "mnemonic"}
   FullProduct = TRUE
   Open0Set = {FALSE, TRUE}
+  ForeignSet = {FALSE, TRUE}
 SPECIFICATION Spec
 INVARIANT TypeOK
 PROPERTY Prop_Gate
